@@ -12,7 +12,7 @@ Inductive c14case :=
 | CVote (nx ny nz : N) (ps : list paint) (go_lo : res (list N))
   (* writes: (offset x y z in voxels, size in voxels, paints for that box); window: offset and size at
      scale 0; go_status: HTTP class of each write; go_levels: digest of GET raw at scale 0,1,2.. *)
-| CHttp (maxlevel : N) (writes : list (Z * Z * Z * (N * N * N) * list paint)) (wx wy wz : Z) (wn : N)
+| CHttp (maxlevel : N) (writes : list (Z * Z * Z * (N * N * N) * list paint)) (wx wy wz : Z) (wn : N * N * N)
         (go_status : list N) (go_levels : list (res N)).
 
 Definition res_eqb {A} (eqb : A -> A -> bool) (a b : res A) : bool :=
@@ -55,17 +55,18 @@ Fixpoint world_at (ws : list (Z * Z * Z * (N * N * N) * list paint)) (x y z : Z)
   | w :: r => world_at r x y z (match in_write w x y z with Some l => l | None => cur end)
   end.
 
-Definition level0 (ws : list (Z * Z * Z * (N * N * N) * list paint)) (wx wy wz : Z) (wn : N) : list N :=
+Definition level0 (ws : list (Z * Z * Z * (N * N * N) * list paint)) (wx wy wz : Z) (wn : N * N * N) : list N :=
+  let '(nx, ny, nz) := wn in
   flat_map (fun z => flat_map (fun y => map (fun x =>
-    world_at ws (wx + Z.of_N x) (wy + Z.of_N y) (wz + Z.of_N z) 0) (nseq wn)) (nseq wn)) (nseq wn).
+    world_at ws (wx + Z.of_N x) (wy + Z.of_N y) (wz + Z.of_N z) 0) (nseq nx)) (nseq ny)) (nseq nz).
 
-(* expected digests of the levels 0..maxlevel over the window *)
-Fixpoint levels_from (a : list N) (n : N) (k : nat) : list (res N) :=
+(* expected digests of the levels 0..maxlevel over the window (sizes halve per level) *)
+Fixpoint levels_from (a : list N) (nx ny nz : N) (k : nat) : list (res N) :=
   match k with
   | O => [Ok (digest a)]
   | S k' => Ok (digest a) ::
-            match downres_labels a n n n with
-            | Ok lo => levels_from lo (n / 2) k'
+            match downres_labels a nx ny nz with
+            | Ok lo => levels_from lo (nx / 2) (ny / 2) (nz / 2) k'
             | Err => [Err]
             | Panic => [Panic]
             end
@@ -145,7 +146,7 @@ Definition spec_class (c : c14case) : nat :=
     if existsb (fun s => s =? 2) go_status then 1%nat
     else if existsb (fun s => negb (s =? 0)) go_status then 5%nat
     else if existsb (fun r => match r with Panic => true | _ => false end) go_levels then 1%nat
-    else if list_eqb (res_eqb N.eqb) (levels_from (level0 writes wx wy wz wn) wn (N.to_nat maxlevel)) go_levels
+    else if list_eqb (res_eqb N.eqb) (let '(nx, ny, nz) := wn in levels_from (level0 writes wx wy wz wn) nx ny nz (N.to_nat maxlevel)) go_levels
     then 0%nat else 4%nat
   end.
 
